@@ -712,6 +712,14 @@ def window_cases(rng, container, cells, labels, w, f, t, seedbase, rich):
         a, b = v[0], v[-1]
         yield mk("lswap", col=cols[0], c1=a, c2=b)
         yield mk("ljoin", col=cols[0], c1=a, c2=b, new=9.0)
+    # six-digit class codes that differ by 1 (ids, postcodes): classes are compared exactly, whatever their magnitude
+    if cells and (f + t) % 3 == 0:
+        big = dict(base, cells=[list(r[:-1]) + [float(r[-1]) + 100001.0] for r in cells])
+        for (a, b) in ((100001.0, 100002.0), (100002.0, 100003.0), (100003.0, 100001.0)):
+            k[0] += 1
+            yield dict(big, inj="lswap", args={"col": ycol, "c1": a, "c2": b, "from": f, "to": t}, seed=int(seedbase + k[0]))
+        k[0] += 1
+        yield dict(big, inj="ljoin", args={"col": ycol, "c1": 100001.0, "c2": 100002.0, "new": 100009.0, "from": f, "to": t}, seed=int(seedbase + k[0]))
     for cp in PROB_MENU:
         yield mk("prob", col=ycol, cp=[list(x) for x in cp])
     for al in DIR_MENU:
